@@ -1167,7 +1167,7 @@ class Env:
         for i, p in enumerate(params):
             if is_class:
                 ccfg = self.tr.config.get('classes', {}).get(gname, {})
-                pk = self.tr._parse_kind(ccfg.get('field_kinds', {}).get(p, Kind.NUM))
+                pk = self.tr._parse_kind(ccfg.get('field_kinds', {}).get(p, ccfg.get('default_field_kind', Kind.NUM)))
             else:
                 d = defaults[i - nreq] if i >= nreq else None
                 pk = self.tr.param_kind(gm, gname, p, d)
